@@ -15,7 +15,7 @@ var stdAssumptions = []string{
 func init() {
 	registerCheck(&checkSpec{
 		id:    "C05",
-		dirs:  []string{"socket", "proto/jsonproto", "proto/thriftproto", "mixer/websocket/pbSubProto", "mixer/websocket/jsonSubProto"},
+		dirs:  []string{"socket", "proto/jsonproto", "proto/thriftproto", "proto/httproto", "mixer/websocket/pbSubProto", "mixer/websocket/jsonSubProto"},
 		level: "other",
 		jobs: func(tier string) []job {
 			var js []job
@@ -46,6 +46,9 @@ func init() {
 				js = append(js, J("proto/thriftproto", "VX_C05_ThriftBinary", g, 2))
 			}
 			js = append(js, J("proto/thriftproto", "VX_C05_ThriftBinary", 4, 0), J("proto/thriftproto", "VX_C05_ThriftSize", 1))
+			// http-style protocol (net/http.Header, net/url interpreted): request + response back to back
+			js = append(js, J("proto/httproto", "VX_C05_HTTPRoundTrip", 1, 0), J("proto/httproto", "VX_C05_HTTPRoundTrip", 0, 2))
+			js = append(js, J("proto/thriftproto", "VX_C05_ThriftStruct", 0, 2), J("proto/thriftproto", "VX_C05_ThriftStruct", 1, 2), J("proto/thriftproto", "VX_C05_ThriftStruct", 2, 1), J("proto/thriftproto", "VX_C05_ThriftStruct", 3, 1), J("proto/thriftproto", "VX_C05_ThriftStruct", 4, 0))
 			// json protocol: group(method, body, meta value, status msg), n, class(0 any byte = recorded finding, 1 text)
 			for g := 0; g <= 3; g++ {
 				js = append(js, J("proto/jsonproto", "VX_C05_JSONRoundTrip", g, 1, 1), J("proto/jsonproto", "VX_C05_JSONRoundTrip", g, 0, 1))
@@ -64,7 +67,7 @@ func init() {
 		},
 		assumptions: append(append([]string{}, stdAssumptions...), "strconv Format/Parse of SYMBOLIC integers are summarised by the round-trip contract (stub S-STRCONV); concrete integers run the real strconv code"),
 		explanation: "symbolic execution of the real raw-protocol Pack/Unpack code (go/ssa rebuilt from /repo) with symbolic field contents and solver-chosen short-read positions; each vxAssert is an SMT query (unsat = holds for all values of the symbolic bytes within the shape)",
-		bounds:      "raw protocol in depth; json protocol (gjson interpreted) with one symbolic text field of <= 2 bytes per instance; websocket protobuf sub-protocol (gogo-generated code interpreted) with symbolic seq/mtype/codec/method/meta/body; websocket json sub-protocol on concrete fields (frame built with fmt.Sprintf); thrift binary protocol (apache thrift THeader code interpreted) with one symbolic field of <= 2 bytes or a symbolic seq per instance; pbproto/httproto and the thrift struct protocol not covered here; raw: method<=3 bytes, body<=4, meta<=3 pairs of <=2-byte key/value, status msg/cause<=2 bytes, seq symbolic int32 or samples incl. extremes, two frames with <=2 short reads at any offset, transfer pipes of <=3 filters",
+		bounds:      "raw protocol in depth; json protocol (gjson interpreted) with one symbolic text field of <= 2 bytes per instance; websocket protobuf sub-protocol (gogo-generated code interpreted) with symbolic seq/mtype/codec/method/meta/body; websocket json sub-protocol on concrete fields (frame built with fmt.Sprintf); thrift binary protocol (apache thrift THeader code interpreted) with one symbolic field of <= 2 bytes or a symbolic seq per instance; thrift struct protocol likewise with a hand-written TStruct body, two frames back to back; http-style protocol: request + OK response with symbolic seq or body (error responses carry the status as encoding/json text: outside); pbproto not covered here; raw: method<=3 bytes, body<=4, meta<=3 pairs of <=2-byte key/value, status msg/cause<=2 bytes, seq symbolic int32 or samples incl. extremes, two frames with <=2 short reads at any offset, transfer pipes of <=3 filters",
 	})
 	registerCheck(&checkSpec{
 		id:    "C06",
@@ -282,7 +285,7 @@ func init() {
 			// wire link over the other protocols
 			js = append(js, J("proto/jsonproto", "VX_C05_JSONRoundTrip", 3, 1, 1), J("proto/jsonproto", "VX_C05_JSONRoundTrip", 3, 0, 1),
 				J("mixer/websocket/pbSubProto", "VX_C04_WSPbStatus"), J("mixer/websocket/jsonSubProto", "VX_C04_WSJsonStatus"),
-				J("proto/thriftproto", "VX_C05_ThriftBinary", 3, 2), J("proto/thriftproto", "VX_C04_ThriftBinarySeq", 1))
+				J("proto/thriftproto", "VX_C05_ThriftBinary", 3, 2), J("proto/thriftproto", "VX_C04_ThriftBinarySeq", 1), J("proto/thriftproto", "VX_C05_ThriftStruct", 3, 1))
 			if tier == "thorough" {
 				js = append(js, c02jobs("thorough")...)
 			}
